@@ -25,7 +25,8 @@ RULE = ("Hypothesis draws series (10 classes, n 5..200, >=5 valid cells) x gap p
         "4-pass bisquare algorithm with residual statistics over valid cells only; degenerate families (constant, exactly linear, "
         "flat+spikes, two-level; far from zero; with/without gaps) must come back as the constant / the line / a finite curve, "
         "never the all-0 / all--32768 cast-of-NaN patterns; placeholder independence; whitswcv defaults, "
-        "naming and sgrid; every robust band must satisfy the normal-equation consistency test (>= 2 valid cells can carry weight, missing cells none). Non-trivial: gaps, or grid != arange(-2,2), or degenerate family, or robust; distinct by content hash.")
+        "naming and sgrid; every robust band must satisfy the normal-equation consistency test (>= 2 valid cells can carry weight, missing cells none). Non-trivial: gaps, or grid != arange(-2,2), or degenerate family, or robust; distinct by content hash. "
+        " Added after the fifth seeded round: Unsorted sranges in the symmetric GCV sub-check; generic 'history' sub-check for whitswcv.")
 ASSUME = ["LAPACK banded solvers as reference", "robust equality oracle only where MAD > 0 in every pass and both reference solvers agree"]
 
 
